@@ -8,7 +8,7 @@ from hypothesis import strategies as st
 from .. import gens, model, printing
 from ..core import Prop, Violation
 
-MUTATIONS = ["identity", "permute", "number_ulp0", "number_ulp1", "number_far", "number_sign", "number_nonfinite", "string_change",
+MUTATIONS = ["identity", "permute", "number_ulp0", "number_ulp1", "number_ulp2", "number_far", "number_sign", "number_nonfinite", "string_change",
              "bool_flip", "type_change", "key_rename", "key_case", "member_add", "member_drop", "member_add_casevar", "key_nonletter_flip", "element_add", "element_drop",
              "element_swap", "raw_change", "null_to_nonfinite", "independent"]
 
@@ -93,6 +93,17 @@ def mutate(a, kind, rnd):
             if abs(d) < 2.3e-308:
                 return a, False
             y = nudge(d, rnd.choice([-1, 1]))
+        elif kind == "number_ulp2":
+            # two or three ulps away: for powers of two this is exactly on the edge of the relative tolerance - no verdict on equality
+            # there (inclusive or exclusive is a matter of reading), but Compare must still give the same answer in both orders
+            if abs(d) < 2.3e-308:
+                return a, False
+            y = nudge(d, rnd.choice([-2, 2, -3, 3]))
+            pp, pn = pick(lambda n: n[0] == "N" and n[1] == n[1] and not math.isinf(n[1]) and abs(n[1]) >= 1e-300 and math.frexp(abs(n[1]))[0] == 0.5)
+            if pp is not None and rnd.random() < 0.7:
+                # a power of two and the number two (smaller) ulps below it: |a - b| is exactly DBL_EPSILON times the larger one
+                p, d = pp, pn[1]
+                y = nudge(d, -2 if d > 0 else 2) if rnd.random() < 0.8 else nudge(d, rnd.choice([-1, -3, -4, 2]) * (1 if d > 0 else -1))
         elif kind == "number_far":
             y = nudge(d, rnd.choice([-1, 1]) * rnd.choice([4, 5, 8, 64])) if rnd.random() < 0.6 else d + rnd.choice([1.0, -1.0, 0.5, 1e-3, 1e10])
             if y == d:
@@ -438,6 +449,9 @@ class C12(Prop):
                 stats.inner += 2
                 if bool(r1) != bool(r2):
                     raise Violation("Compare is not symmetric (case_sensitive=%d): %d vs %d; mutation %s" % (cs, r1, r2, kind), key="asymmetric")
+                if kind == "number_ulp2":
+                    stats.cls("tolerance_edge_(symmetry_only)")
+                    continue
                 if bool(r1) != want:
                     raise Violation("Compare(a, b, case_sensitive=%d) = %d but the values are %s (relation: %s); a=%s b=%s" % (
                         cs, r1, "equal" if want else "different", kind, lib.dump(pa)[0][:200], lib.dump(pb)[0][:200]),
